@@ -81,6 +81,26 @@ func runC09(p *an.Prog, r *an.Run, tier string) {
 	acc := poolMapAccesses(p, "remoteHosts", "remoteNodeLookup")
 	r.Floor("registry-accesses", len(acc), 8)
 
+	// ---- no-block-under-lock (pool package): the registry lock is never held across a reverse call or a channel wait —
+	// while it is, no close can unregister, no reconnect can register and the count cannot be read: a closed host stays
+	// registered and instructable for as long as the slowest whitelist call takes (shared with C10)
+	{
+		entryNB := p.EntryLocks()
+		infosNB := map[*ssa.Function]*an.LockInfo{}
+		checkNoBlockUnderLock(p, r, "no-block-under-lock", func(fn *ssa.Function) bool {
+			top := fn
+			for top.Parent() != nil {
+				top = top.Parent()
+			}
+			return top.Pkg != nil && strings.HasSuffix(top.Pkg.Pkg.Path(), "/pool")
+		}, func(fn *ssa.Function) *an.LockInfo {
+			if infosNB[fn] == nil {
+				infosNB[fn] = an.Locksets(fn, entryNB[fn])
+			}
+			return infosNB[fn]
+		})
+	}
+
 	// ---- locked
 	entry := p.EntryLocks()
 	infos := map[*ssa.Function]*an.LockInfo{}
